@@ -94,6 +94,54 @@ def sendvRecv (c : Cl) (T : Option Nat) : Cl × Rc :=
   | .size => recvLoop (c.deathAt - c.now + T.getD 0 + 2) s.1 T (T.getD 0)
   | _ => s
 
+/-! ### `qb_ipcc_shm_disconnect` (lib/ipc_shm.c) after the server's death: what happens to the ring files -/
+
+inductive RingFile where
+  | hdr (r : Ring) | data (r : Ring)
+  deriving DecidableEq, Repr, Inhabited
+
+inductive FileFate where
+  /-- the client did not touch it (it is not the creator: plain `qb_rb_close`) -/
+  | left
+  /-- `unlinkat` succeeded (or the file was gone already: ENOENT) -/
+  | removed
+  /-- `unlinkat` failed otherwise: `openat(O_WRONLY|O_TRUNC)` fallback; `true` = it succeeded -/
+  | truncated (ok : Bool)
+  /-- `open(dir_path, O_PATH)` failed: `qb_rb_close_helper` gives up on both files of this ring -/
+  | dirFailed
+  deriving DecidableEq, Repr, Inhabited
+
+structure DiscIn where
+  /-- `c->is_connected` after the `poll(0)` of `qb_ipcc_disconnect` -/
+  conn : Bool
+  /-- `c->server_pid != 0` -/
+  serverPid : Bool := true
+  /-- attempt k = 0..3: `kill(server_pid, 0) == -1 && errno == ESRCH` -/
+  killEsrch : Nat → Bool
+  dirOpenOk : Ring → Bool := fun _ => true
+  /-- `unlinkat` succeeds or says ENOENT -/
+  unlinkOk : RingFile → Bool
+  truncOk : RingFile → Bool := fun _ => true
+
+/-- `rb_destructor == qb_rb_force_close`: `while (attempt++ <= 3 && rb_destructor == qb_rb_close)` -/
+def forceClose (i : DiscIn) : Bool :=
+  !i.conn && (if i.serverPid then (List.range 4).any i.killEsrch else true)
+
+/-- `qb_sys_unlink_or_truncate_at(dirfd, file, truncate_fallback = TRUE)` -/
+def unlinkOrTruncate (i : DiscIn) (f : RingFile) : FileFate :=
+  if i.unlinkOk f then .removed else .truncated (i.truncOk f)
+
+/-- `qb_rb_close_helper(rb, TRUE, TRUE)` (force) / `(rb, FALSE, …)` (plain close): data file first -/
+def closeRing (i : DiscIn) (r : Ring) : List (RingFile × FileFate) :=
+  if forceClose i then
+    if i.dirOpenOk r then [(.data r, unlinkOrTruncate i (.data r)), (.hdr r, unlinkOrTruncate i (.hdr r))]
+    else [(.data r, .dirFailed), (.hdr r, .dirFailed)]
+  else [(.data r, .left), (.hdr r, .left)]
+
+/-- `qb_ipcc_shm_disconnect`: request, response, event -/
+def shmDisconnectFiles (i : DiscIn) : List (RingFile × FileFate) :=
+  closeRing i .req ++ closeRing i .resp ++ closeRing i .evt
+
 /-- not used by the differential run: the server-death direction is judged by the property oracle -/
 def caseServerDeath (_t : Transport) (_pre : List Char) (_api : String) (_tmo : Int) (_s : Nat) (_dry : Bool) : List String := ["todo"]
 end QbVerif.IpcLife.Client
